@@ -57,7 +57,7 @@ fn init(c: &Cfg, tag: &str) -> Result<(), String> {
 /// accessor and by behaviour: a token recorded at an aligned instant t is still counted at
 /// t + W - 1 and no longer at t + W (W = read window), and a second token one inner bucket later
 /// lands in another bucket.
-fn probe(name: &str) -> Result<(u32, u32, u32, u32, u64), String> {
+fn probe(name: &str) -> Result<(u32, u32, u32, u32, u64, f64), String> {
     let r = std::panic::catch_unwind(|| {
         let base = T0_MS + 4_200_000;
         clock::set_ms(base);
@@ -68,6 +68,8 @@ fn probe(name: &str) -> Result<(u32, u32, u32, u32, u64), String> {
         e.exit();
         let node = stat::get_resource_node(&name.to_string()).ok_or("no-node: no statistics node after an entry".to_string())?;
         let g = node.verif_geometry();
+        // the per-second rate of the one token just recorded: 1 / (read window in seconds)
+        let rate = node.qps(MetricEvent::Pass);
         // behavioural window length: first instant at which the token is no longer counted
         let mut w = 0u64;
         for d in 1..=60_001u64 {
@@ -78,7 +80,7 @@ fn probe(name: &str) -> Result<(u32, u32, u32, u32, u64), String> {
             }
         }
         clock::set_ms(base);
-        Ok((g.0, g.1, g.2, g.3, w))
+        Ok((g.0, g.1, g.2, g.3, w, rate))
     });
     match r {
         Ok(x) => x,
@@ -86,10 +88,14 @@ fn probe(name: &str) -> Result<(u32, u32, u32, u32, u64), String> {
     }
 }
 
-fn expect_geometry(c: &Cfg, who: &str, got: Result<(u32, u32, u32, u32, u64), String>) -> Result<(), String> {
-    let (a, b, s, i, w) = got.map_err(|e| format!("{}: on {}", e, who))?;
+fn expect_geometry(c: &Cfg, who: &str, got: Result<(u32, u32, u32, u32, u64, f64), String>) -> Result<(), String> {
+    let (a, b, s, i, w, rate) = got.map_err(|e| format!("{}: on {}", e, who))?;
     if (a, b, s, i) != (c.sct, c.ivt, c.sc, c.iv) {
         return Err(format!("geometry-differs: {} sees a node of geometry ({} buckets / {} ms, default window {} / {} ms), the accepted configuration says ({} / {}, {} / {})", who, a, b, s, i, c.sct, c.ivt, c.sc, c.iv));
+    }
+    let want_rate = 1000.0 / c.iv as f64;
+    if (rate - want_rate).abs() > 1e-9 {
+        return Err(format!("rate-differs: {}: one token in a read window of {} ms reads as {} per second, expected {}", who, c.iv, rate, want_rate));
     }
     if w != c.iv as u64 {
         return Err(format!("window-behaviour: {}: a token recorded at an aligned instant disappears after {} ms, configured read window {} ms", who, w, c.iv));
